@@ -344,27 +344,116 @@ Section WithLaw.
   Qed.
 End WithLaw.
 
-(* ================= PolyAssignment.__init__ does not validate ================================
-   program/assignment/poly_assignment.py: __init__(variable, polynomials, probabilities)
-   sympifies both lists and stores them; there is no check.  Faithful model: *)
+(* ================= PolyAssignment.__init__ ====================================================
+   program/assignment/poly_assignment.py: __init__(variable, polynomials, probabilities).
+   Since /repo commit 626892e: when every probability is a number, raise unless each lies in [0,1]
+   and they sum to 1 (the parser has already filled in an omitted last probability as 1 - sum).
+   Before that commit there was no check at all (the OLD rule, kept below with its refutation). *)
+Definition const_probs (probs : list expr) : option (list Qc) :=
+  fold_right (fun e acc => match e, acc with EConst q, Some l => Some (q :: l) | _, _ => None end) (Some []) probs.
+Definition probs_ok (ps : list Qc) : bool :=
+  forallb (fun p => Qc_leb 0 p && Qc_leb p 1) ps && Qc_eqb (qsum ps) 1.
 Definition poly_assignment_init (x : var) (polys probs : list expr) : option stmt :=
+  match const_probs probs with
+  | Some ps => if probs_ok ps then Some (SAssign x (RChoice (combine probs polys))) else None
+  | None => Some (SAssign x (RChoice (combine probs polys)))
+  end.
+Definition poly_assignment_init_old (x : var) (polys probs : list expr) : option stmt :=
   Some (SAssign x (RChoice (combine probs polys))).
 
-(* the property's demand "a choice whose constant probabilities are negative or add up to
-   more than 1 is rejected" is FALSE of this model:  x = 1 {3/2} 2  is accepted, with weights
-   3/2 and -1/2 (and E(x) = 1/2) *)
+Lemma const_probs_map ps : const_probs (map EConst ps) = Some ps.
+Proof. induction ps as [|p ps IH]; [reflexivity|]. cbn [map const_probs fold_right]. fold (const_probs (map EConst ps)). rewrite IH. reflexivity. Qed.
+
+Lemma Qc_leb_le x y : Qc_leb x y = true <-> x <= y.
+Proof.
+  unfold Qc_leb, Qcle, Qccompare. rewrite Qle_alt.
+  destruct (this x ?= this y)%Q; split; intros H; try reflexivity; try discriminate; try (intros E; discriminate E).
+  exfalso. apply H. reflexivity.
+Qed.
+
+Lemma qsum_nonneg ps : Forall (fun p => 0 <= p) ps -> 0 <= qsum ps.
+Proof.
+  induction 1 as [|p ps Hp _ IH]; cbn [qsum fold_right].
+  - apply Qcle_refl.
+  - replace 0 with (0 + 0) by ring. apply Qcplus_le_compat; [exact Hp | exact IH].
+Qed.
+
+Lemma qsum_ge ps p : Forall (fun p => 0 <= p) ps -> In p ps -> p <= qsum ps.
+Proof.
+  induction 1 as [|a ps Ha Hps IH]; intros Hin; [destruct Hin|].
+  cbn [qsum fold_right]. fold (qsum ps). destruct Hin as [->|Hin].
+  - replace p with (p + 0) at 1 by ring. apply Qcplus_le_compat; [apply Qcle_refl | apply qsum_nonneg; exact Hps].
+  - replace p with (0 + p) by ring. apply Qcplus_le_compat; [exact Ha | apply IH; exact Hin].
+Qed.
+
+Lemma probs_ok_iff ps : probs_ok ps = true <-> Forall (fun p => 0 <= p) ps /\ qsum ps = 1.
+Proof.
+  unfold probs_ok. rewrite andb_true_iff, forallb_forall. split.
+  - intros [H1 H2]. split.
+    + apply Forall_forall. intros p Hp. specialize (H1 p Hp). apply andb_true_iff in H1. apply Qc_leb_le, H1.
+    + apply Qc_eqb_true. exact H2.
+  - intros [H1 H2]. split.
+    + intros p Hp. apply andb_true_iff. split; apply Qc_leb_le.
+      * rewrite Forall_forall in H1. apply H1. exact Hp.
+      * rewrite <- H2. apply qsum_ge; assumption.
+    + rewrite H2. apply Qc_eqb_refl.
+Qed.
+
+(* the repaired constructor accepts a constant vector iff it is a probability vector, i.e. iff the
+   choice denotes a probability law *)
+Theorem repaired_constructor_accepts_iff_valid : forall law x (ps : list Qc) (es : list expr) s,
+  length es = length ps ->
+  (poly_assignment_init x es (map EConst ps) <> None <->
+   is_prob_law (sample law (RChoice (const_alts ps es)) s)).
+Proof.
+  intros law x ps es s Hlen. rewrite (choice_all_listed_iff law ps es s Hlen), <- probs_ok_iff.
+  unfold poly_assignment_init. rewrite const_probs_map.
+  destruct (probs_ok ps); split; intros H; try reflexivity; try discriminate; try (intros E; discriminate E).
+  exfalso. apply H. reflexivity.
+Qed.
+
+(* with the last probability omitted in the text: accepted iff the listed ones are >= 0 and sum to <= 1 *)
+Theorem repaired_constructor_implicit_last : forall x (ps : list Qc) (es : list expr),
+  (poly_assignment_init x es (map EConst (ps ++ [1 - qsum ps])) <> None <-> valid_probs ps).
+Proof.
+  intros x ps es. unfold poly_assignment_init. rewrite const_probs_map.
+  assert (Hs : qsum (ps ++ [1 - qsum ps]) = 1).
+  { unfold qsum. rewrite fold_right_app. cbn [fold_right].
+    assert (H : forall l a, fold_right Qcplus a l = fold_right Qcplus 0 l + a)
+      by (induction l as [|y l IHl]; intros a; cbn [fold_right]; [ring | rewrite IHl; ring]).
+    rewrite H. ring. }
+  assert (Hiff : probs_ok (ps ++ [1 - qsum ps]) = true <-> valid_probs ps).
+  { rewrite probs_ok_iff, Forall_app. unfold valid_probs. split.
+    - intros [[H1 H2] _]. split; [exact H1|]. inversion H2 as [|? ? H3 _]. apply Qcle_minus_iff. exact H3.
+    - intros [H1 H2]. split; [|exact Hs]. split; [exact H1|]. constructor; [|constructor].
+      apply Qcle_minus_iff in H2. exact H2. }
+  destruct (probs_ok (ps ++ [1 - qsum ps])); split; intros H.
+  - apply Hiff. reflexivity.
+  - intros E; discriminate E.
+  - exfalso. apply H. reflexivity.
+  - apply Hiff in H. discriminate H.
+Qed.
+
+(* the OLD rule (before 626892e): "a choice whose constant probabilities are negative or add up to
+   more than 1 is rejected" is FALSE of it:  x = 1 {3/2} 2  is accepted, with weights 3/2 and -1/2
+   (and E(x) = 1/2) *)
 Definition three_halves_choice : list (expr * expr) :=
   [(EConst (mkq 3 2), EConst (mkq 1 1))].
 
-Theorem invalid_probs_accepted_refuted :
+Theorem invalid_probs_accepted_old_rule_refuted :
   ~ (forall x ps es e st, length es = length ps ->
-       poly_assignment_init x (es ++ [e]) (map EConst ps ++ [one_minus (map EConst ps)]) = Some st ->
+       poly_assignment_init_old x (es ++ [e]) (map EConst ps ++ [one_minus (map EConst ps)]) = Some st ->
        valid_probs ps).
 Proof.
   intros H.
   specialize (H "x"%string [mkq 3 2] [EConst (mkq 1 1)] (EConst (mkq 2 1)) _ eq_refl eq_refl).
   destruct H as [_ H]. cbn in H. vm_compute in H. apply H. reflexivity.
 Qed.
+
+(* ... and the repaired constructor rejects that witness *)
+Example three_halves_rejected :
+  poly_assignment_init "x"%string [EConst (mkq 1 1); EConst (mkq 2 1)] [EConst (mkq 3 2); EConst (1 - mkq 3 2)] = None.
+Proof. vm_compute. reflexivity. Qed.
 
 Example three_halves_not_a_law :
   ~ is_prob_law (sample no_law (fill_last three_halves_choice (EConst (mkq 2 1))) st0).
